@@ -737,6 +737,19 @@ class Lowerer:
             self.temps.append('%s;' % self.value_decl(t, tmp))
             return '(%s, %s)' % (self.ctor_call(t, '&' + tmp, n), tmp)
         args = self.drop_defaults(args)
+        il = self.initlist_elems(args[0]) if len(args) == 1 else None
+        if il is not None:
+            # brace-initialised container: default-construct, then add the elements in order
+            tmp = self.new_tmp()
+            self.temps.append('%s;' % self.value_decl(t, tmp))
+            c0 = '%s_ctor' % t.name; self.note_extern(c0, n)
+            parts = ['%s = %s()' % (tmp, c0)]
+            for el in il:
+                et = ct(el)
+                add = '%s_initlist_add__%s' % (t.name, et.name); self.note_extern(add, n)
+                parts.append('%s(&%s, %s)' % (add, tmp, self.arg(el)))
+            self.rule('brace-initialised container -> ctor + initlist_add per element')
+            return '(' + ', '.join(parts + [tmp]) + ')'
         if not args:
             self.rule('ctor-default'); cname = '%s_ctor' % t.name
             self.note_extern(cname, n)
@@ -749,6 +762,17 @@ class Lowerer:
         self.note_extern(cname, n)
         return '%s(%s)' % (cname, ', '.join(self.arg(a) for a in args))
     e_CXXTemporaryObjectExpr = e_CXXConstructExpr
+
+    def initlist_elems(self, a):
+        x = a
+        while x['kind'] in ('ExprWithCleanups', 'MaterializeTemporaryExpr', 'CXXBindTemporaryExpr', 'ImplicitCastExpr'):
+            x = x['inner'][0]
+        if x['kind'] != 'CXXStdInitializerListExpr': return None
+        y = x['inner'][0]
+        while y['kind'] in ('MaterializeTemporaryExpr', 'CXXBindTemporaryExpr', 'ImplicitCastExpr', 'ExprWithCleanups'):
+            y = y['inner'][0]
+        if y['kind'] != 'InitListExpr': raise Unsupported('initializer_list without InitListExpr')
+        return y.get('inner', [])
 
     def ctor_call(self, t, target, n):
         """Call of a repo class constructor on storage `target` (pointer expression)."""
